@@ -857,7 +857,7 @@ func (r *SeqRun) RecheckOld(when string) *kernel.Violation {
 }
 
 func (r *SeqRun) touchesVacuumed(op *Op, ex *Expect) bool {
-	if len(r.Vacuumed) == 0 || op.Kind == "vacuum" || op.Kind == "branch-drop" {
+	if len(r.Vacuumed) == 0 || op.Kind == "branch-drop" {
 		return false
 	}
 	if b, ok := r.Br[op.Branch]; ok && r.anyVacuumed(b.Objs) {
